@@ -84,6 +84,93 @@ def gen_sweep(t):
         tu.add('w_eig%d' % d, '%s& A, %s<%s>& S, %s& V, const %s& tol' % (M, V, E, M, E), 'jacobiEigenSolver(A, S, V, tol);', d=d, kind='eig')
     return tu
 
+def gen_eigsel(t):
+    """min/maxEigenVector with the eigen solver left as a call: which column of the eigenbasis is returned"""
+    E = ELEM[t][0]
+    hdr = '#include "%s"\nusing namespace IMATH_INTERNAL_NAMESPACE;\n' % os.path.join(build.REPO, 'src', 'Imath', 'ImathMatrixAlgo.cpp')
+    tu = TU('c12e_' + t, header=hdr, opaque=('17jacobiEigenSolver',))
+    for d in (3, 4):
+        for which in ('max', 'min'):
+            tu.add('w_%sev%d' % (which, d), 'Matrix%d%d<%s>& A, Vec%d<%s>& V' % (d, d, E, d, E), '%sEigenVector(A, V);' % which, d=d, which=which)
+    return tu
+
+def check_eigsel(rep, R, tu, t):
+    """R12.eigsel: on every weak ordering of the magnitudes |S_i| of the solver's eigenvalues (and of any raw S_i the code
+    compares, consistent with S_i <= |S_i|), the vector returned is the column of the eigenbasis belonging to a
+    largest-magnitude (smallest-magnitude) eigenvalue"""
+    from engine import ordd
+    E, sz, lt = ELEM[t]
+    for name, m in tu.meta.items():
+        d = m['d']; which = m['which']
+        oid = '%sEigenVector(Matrix%d%d<%s>)' % (which, d, d, E)
+        S = R.get(name)
+        if S is None:
+            rep.ob(oid, 'R12.eigsel', UNDECIDED, R.err.get(name, 'not analysed')); continue
+        where = fn_where(S.fn)
+        try:
+            outs = [S.out('a1', k * sz, sz, lt) for k in range(d)]
+            call = find_call(outs[0], 'jacobiEigenSolver')
+            if call is None:
+                rep.ob(oid, 'R12.eigsel', UNDECIDED, 'the call of jacobiEigenSolver was not found in the result', where); continue
+            ptrs = [i for i, a in enumerate(call.args) if a.ty != 'mem' and a.ty.startswith('ptr') or a.ty == 'ptr']
+            # pointer arguments in order: A, S, MV
+            pidx = [i for i, a in enumerate(call.args) if str(a.ty).startswith('ptr') or a.op in ('arg', 'local', 'alloca')]
+            cand = None
+            for si in range(len(call.args)):
+                for mi in range(len(call.args)):
+                    if si == mi: continue
+                    Sv = out_atoms(call, si, d, sz, lt); MV = out_atoms(call, mi, d * d, sz, lt)
+                    ids = set(x.id for x in Sv) | set(x.id for x in MV)
+                    seen = set(); st = list(outs); used_s = used_m = 0
+                    while st:
+                        x = st.pop()
+                        if x.id in seen: continue
+                        seen.add(x.id); st.extend(x.args)
+                    used_s = sum(1 for x in Sv if x.id in seen); used_m = sum(1 for x in MV if x.id in seen)
+                    if used_s == d and used_m >= d * 2: cand = (Sv, MV)
+            if cand is None:
+                rep.ob(oid, 'R12.eigsel', UNDECIDED, 'eigenvalue / eigenbasis out-parameters of the solver call not recognised', where); continue
+            Sv, MV = cand
+            import itertools
+            from .common import lift_all
+            outs = [lift_all(o, [200000]) for o in outs]
+            leaves, conds = ordd.collect(outs)
+            sid = {sv.id: i for i, sv in enumerate(Sv)}
+            def leaf_val(l, vals):
+                if l.id in sid: return Fraction(vals[sid[l.id]])
+                if l.op == 'const': return ordd.const_num(l)
+                if (l.op == 'absi' or (l.op == 'call' and 'fabs' in str(l.attr))) and l.args[0].id in sid: return abs(Fraction(vals[sid[l.args[0].id]]))
+                if l.op == 'fneg' and l.args[0].id in sid: return -Fraction(vals[sid[l.args[0].id]])
+                return None
+            compared = set()
+            for c in conds:
+                for l in ordd.cmp_leaves(c): compared.add(l.id)
+            cl = [l for l in leaves if l.id in compared]
+            if any(leaf_val(l, [1] * d) is None for l in cl):
+                odd = [l for l in cl if leaf_val(l, [1] * d) is None][0]
+                rep.ob(oid, 'R12.eigsel', UNDECIDED, 'the selection compares %s, which is not an eigenvalue, its magnitude or a constant' % T.show(odd, 3)[:80], where); continue
+            bad = None; n = 0
+            # S_i over the integers -d..d realises every sign pattern and every weak ordering of the magnitudes
+            for vals in itertools.product(range(-d, d + 1), repeat=d):
+                env = {l.id: leaf_val(l, vals) for l in cl}
+                n += 1
+                mags = [abs(v) for v in vals]
+                best = max(mags) if which == 'max' else min(mags)
+                sel = [ordd.ev(o, env) for o in outs]
+                cols = set()
+                for k in range(d):
+                    js = [j_ for j_ in range(d) if sel[k] is MV[k * d + j_]]
+                    if len(js) != 1: bad = 'component %d of the result is %s, not an entry of row %d of the eigenbasis' % (k, T.show(sel[k], 2)[:60], k); break
+                    cols.add(js[0])
+                if bad: break
+                if len(cols) != 1: bad = 'the components come from different columns %s' % sorted(cols); break
+                j_ = cols.pop()
+                if mags[j_] != best:
+                    bad = 'for eigenvalues ordered like S = %s the column of S[%d] is returned, whose magnitude is not the %s' % (list(vals), j_, 'largest' if which == 'max' else 'smallest'); break
+            rep.ob(oid, 'R12.eigsel', VIOLATED if bad else HOLDS, bad or 'the column of a %s-magnitude eigenvalue on all %d sign / magnitude-order patterns of the eigenvalues' % ('largest' if which == 'max' else 'smallest', n), where)
+        except (vg.Unsupported, ordd.NotOrd, OverflowError) as e:
+            rep.ob(oid, 'R12.eigsel', UNDECIDED, repr(e)[:300], where)
+
 def check_sweeps(rep, ws, t):
     """R12.sweep: a sweep of each Jacobi driver rotates every index pair {j,k}, j<k, of the matrix (a pair that is never
     rotated keeps its off-diagonal entry: no diagonal form, no U*S*V^T = A), and the driver consults the convergence measure"""
@@ -200,11 +287,12 @@ def out_atoms(call, idx, n, sz, lt):
 def main(rep, ws, tier):
     types = 'f' if tier == 'quick' else 'fd'
     tuo = [gen_opaque(t) for t in types]; tui = [gen_inline(t) for t in types]; tus = [gen_shrt(t) for t in types]; tuj = [gen_jacobi(t) for t in types]
-    tum = [gen_measure(t) for t in types]
-    an = Analysed(ws, tuo + tui + tus + tuj + tum, rep)
-    for tm, t in zip(tum, types):
+    tum = [gen_measure(t) for t in types]; tue = [gen_eigsel(t) for t in types]
+    an = Analysed(ws, tuo + tui + tus + tuj + tum + tue, rep)
+    for tm, te, t in zip(tum, tue, types):
         check_measures(rep, an[tm], tm, t)
         check_sweeps(rep, ws, t)
+        check_eigsel(rep, an[te], te, t)
     for to, ti, ts, tj, t in zip(tuo, tui, tus, tuj, types):
         R = an[to]; Ri = an[ti]; Rj = an[tj]; E, sz, lt = ELEM[t]
         def rat_all(ctx, xs): return [ctx.rat(x) for x in xs]
@@ -416,7 +504,7 @@ def main(rep, ws, tier):
                 rep.ob(oid, 'R12.gs', VIOLATED if e[0] else HOLDS, e[0] or e[1], where)
             except (P.NotPoly, PC.Undecided, vg.Unsupported, OverflowError) as e:
                 rep.ob(oid, 'R12.gs', UNDECIDED, repr(e)[:300], where)
-    rep.floor('factorisation obligations', len(rep.obs), 24 * len(types))
+    rep.floor('factorisation obligations', len(rep.obs), 28 * len(types))
     rep.assumptions += ['exact real arithmetic at a generic point; opaque callee out-parameters are free atoms', 'set* matrices as documented (C09)']
     rep.undecided_clauses += ['jacobiSVD, jacobiEigenSolver, min/maxEigenVector, procrustesRotationAndTranslation: convergence loops over run-time data - no static argument in reach establishes U*S*V^T = A (R12.sweep / R12.offdiag / R12.jacobi decide necessary structural conditions only)',
                               'extractEulerXYZ / extractEulerZYX inverse-trigonometric correctness', 'near-singular inputs']
